@@ -219,7 +219,7 @@ func run(prop, tier, funcFilter string, verbose bool) (*report, error) {
 			knownOpen[k.Obligation] = true
 		}
 	}
-	par := 6
+	par := 10
 	sem2 := make(chan struct{}, par)
 	for i, r := range all {
 		wg.Add(1)
@@ -228,6 +228,10 @@ func run(prop, tier, funcFilter string, verbose bool) (*report, error) {
 			sem2 <- struct{}{}
 			defer func() { <-sem2 }()
 			o := r.O
+			secs := secs
+			if o.Timeout > secs {
+				secs = o.Timeout
+			}
 			if _, skip := exclSkip[o.Name]; skip {
 				r.Status = "excluded"
 				return
